@@ -141,7 +141,12 @@ fn real_main() -> i32 {
                     *b = (x >> 32) as u8;
                 }
                 let mut d = verif::util::Dec::new(&bytes);
-                let p = verif::gen::build::gen_program(&mut d, verif::gen::build::GenCfg::full(nodes), &mut ctx);
+                let mut gcfg = verif::gen::build::GenCfg::full(nodes);
+                if args.iter().any(|a| a == "--traits") {
+                    gcfg.traits = true;
+                    gcfg.focus = verif::gen::build::Focus::Traits;
+                }
+                let p = verif::gen::build::gen_program(&mut d, gcfg, &mut ctx);
                 let multi = args.iter().any(|a| a == "--multi");
                 let (text, r) = if multi {
                     let mut ld = verif::util::Dec::new(&bytes[380..]);
